@@ -170,7 +170,7 @@ class C15a(Monitor):
             if leaf == "closing" and isinstance(last, str) and last.startswith("closing"):
                 continue
             if want is None:
-                if leaf == "reload":
+                if leaf.startswith("reload"):
                     continue
                 r.report("C15", f"unknown-leaf:{ctrl}:{leaf}", f"{ctrl} leaf {leaf} has no UI name")
             elif last != want:
@@ -203,7 +203,7 @@ class C08(Monitor):
             if not _alive(r, ctrl):
                 continue
             leaf = s.state(ctrl)
-            if leaf == "reload" or not w.actor(ctrl).actor_inbox.empty():
+            if leaf.startswith("reload") or not w.actor(ctrl).actor_inbox.empty():
                 continue
             mine = pend.get(ctrl, [])
             if leaf not in QUIET[ctrl] and not mine:
